@@ -38,6 +38,7 @@ class StringBuffer {
     auto node = resources_->getString(adaptString(node_->data, size_));
     if (node) {
       node->references++;
+      ARDUINOJSON_VERIF_EVENT(13, resources_, node, node->references);
       return node;
     }
 
